@@ -1,5 +1,6 @@
 """C25 Shortest-path zones compute minimal routes."""
 import heapq
+import os
 
 from hypothesis import strategies as st
 
@@ -50,7 +51,7 @@ class C25(core.Prop):
         dist = route.all_dists(n, dedges)
         selfs = route.self_routes(g)
         kn = known.Known(self.id)
-        exclude_overflow = kn.is_known(SIG_OVERFLOW) and not g.get("noexclude")
+        exclude_overflow = kn.is_known(SIG_OVERFLOW) and not g.get("noexclude") and not os.environ.get("VF_C25_NOEXCLUDE")
         queries = {}
         excluded = 0
         for k in route.SP_KINDS:
